@@ -14,5 +14,7 @@ Args(l, v, cz) ==
 Next == /\ Len(hist) < MaxCmds
         /\ \E l \in Letters, v \in 1..NVar, impl \in BOOLEAN, cz \in BOOLEAN :
               Do(<<l, Args(l, v, cz), impl, cz>>)
+\* simulation mode: long behaviours, every complete one emitted (TLC evaluates this on every generated successor)
+Emit == Len(hist) = MaxCmds => PrintT(<<"CASE", hist, segs>>)
 Spec == Init /\ [][Next]_vars
 =============================================================================
